@@ -38,6 +38,88 @@ def spectral_maps(ctx, rule='spectral-map-equals-documented-map'):
     return maps
 
 
+def _rf_at(rf, lam, sig):
+    def pv(p):
+        return sum(c * lam ** i * sig ** j for (i, j), c in p.items())
+    d = pv(rf.d)
+    if d == 0:
+        return None
+    return pv(rf.n) / d
+
+
+def _running_error(t, leaves):
+    """(value, bound on the relative error in units of the rounding unit) of the expression tree t evaluated as written:
+    every operation adds one rounding; a sum a + b carries (|a| ea + |b| eb) / |a + b|.  leaves: {normal-form leaf: (value, err)}."""
+    from fractions import Fraction
+    if t in leaves:
+        return leaves[t]
+    if not isinstance(t, tuple):
+        raise AnalysisBroken('back-transformation: cannot evaluate %r' % (t,))
+    h = t[0]
+    if h == 'lit':
+        return Fraction(t[1]), Fraction(0)
+    if h in ('+', '-') and len(t) == 3:
+        (a, ea), (b, eb) = _running_error(t[1], leaves), _running_error(t[2], leaves)
+        v = a + b if h == '+' else a - b
+        if v == 0:
+            raise ZeroDivisionError
+        return v, (abs(a) * ea + abs(b) * eb) / abs(v) + 1
+    if h in ('*', '/') and len(t) == 3:
+        (a, ea), (b, eb) = _running_error(t[1], leaves), _running_error(t[2], leaves)
+        return (a * b if h == '*' else a / b), ea + eb + 1
+    if h == 'u-':
+        a, ea = _running_error(t[1], leaves)
+        return -a, ea
+    if h in ('ctor',) and len(t) == 3:
+        return _running_error(t[2], leaves)
+    if h in ('array', 'matrix', 'eval') and len(t) == 2:
+        return _running_error(t[1], leaves)
+    raise AnalysisBroken('back-transformation: unsupported expression %s' % show(t))
+
+
+def formula_conditioning(ctx, fn, t_rhs, head, nu, mode, rule='back-transformation-formula-well-conditioned'):
+    """The iteration delivers nu to a relative accuracy of a few rounding units; the map g: nu -> lambda has the intrinsic
+    condition number |nu g'(nu) / g(nu)| = |nu(lambda) / (lambda nu'(lambda))|.  The FORMULA by which g is evaluated must not lose
+    more than that: its running error bound (a forward error analysis of the expression tree as written, evaluated in exact
+    rationals on a grid of (lambda, sigma) that reaches |sigma / lambda| = 1e12 both ways) stays within 8 (1 + cond).  A formula
+    that is algebraically the same map but subtracts two quantities of size |sigma| to obtain a lambda of size 1 returns
+    eigenvalues with an absolute error eps |sigma|: the pencil residual grows like eps |sigma| ||B x|| -- wrong digits for every
+    legal shift far from the wanted eigenvalues, where the documented form is exact to rounding."""
+    from fractions import Fraction
+    worst = None
+    npts = 0
+    for lam in (Fraction(1), Fraction(-1), Fraction(37, 10), Fraction(-13, 1000)):
+        for e in (-6, -3, 0, 3, 6, 9, 12):
+            for sg in (1, -1):
+                sig = sg * Fraction(10) ** e * Fraction(7, 5)
+                if sig == lam:
+                    continue
+                v = _rf_at(nu, lam, sig)
+                h = abs(lam) / Fraction(10 ** 24)
+                v1, v2 = _rf_at(nu, lam + h, sig), _rf_at(nu, lam - h, sig)
+                if v is None or v1 is None or v2 is None or v == 0 or v1 == v2:
+                    continue
+                dnu = (v1 - v2) / (2 * h)
+                cond = abs(v / (lam * dnu))
+                leaves = {head: (v, Fraction(1)), ('array', head): (v, Fraction(1)), ('F', 'm_sigma'): (sig, Fraction(0))}
+                try:
+                    val, err = _running_error(t_rhs, leaves)
+                except ZeroDivisionError:
+                    continue
+                npts += 1
+                ratio = err / (1 + cond)
+                if worst is None or ratio > worst[0]:
+                    worst = (ratio, lam, sig, err, cond)
+    if npts < 40:
+        raise AnalysisBroken('%s: only %d grid points evaluated for the conditioning of the back-transformation' % (fn.qname, npts))
+    ok = worst[0] <= 8
+    ctx.check(ok, rule, '%s<%s>::sort_ritzpair' % (fn.cls.replace('Spectra::', ''), mode), fn.qname,
+              'running error of the formula <= %.1f (1 + cond of the map) on %d grid points up to |sigma/lambda| = 1e12' % (float(worst[0]), npts) if ok else
+              'the formula `%s` loses %.3g rounding units at lambda = %s, sigma = %.3g where the map itself has condition %.3g: it cancels quantities of size |sigma| to '
+              'produce lambda -- eigenvalues come back with an absolute error eps |sigma| (pencil residual eps |sigma| ||B x||) for shifts far from the wanted eigenvalues' %
+              (show(t_rhs)[:80], float(worst[3]), worst[1], float(worst[2]), float(worst[4])))
+
+
 def back_transforms(ctx, maps, rule='back-transformation-inverts-spectral-map'):
     """g(nu(lambda)) == lambda for every solver that iterates on a transformed spectrum."""
     n = 0
@@ -71,6 +153,8 @@ def back_transforms(ctx, maps, rule='back-transformation-inverts-spectral-map'):
             ctx.check(ok, rule, '%s<%s>::sort_ritzpair' % (fn.cls.replace('Spectra::', ''), mode), fn.qname,
                       'g(nu(lambda)) = lambda for nu = %r' % nu if ok else
                       'back-transformation applied to nu = %r gives %r, not lambda: eigenvalues are reported in the wrong spectrum' % (nu, g))
+            if ok:
+                formula_conditioning(ctx, fn, t[2], head, nu, mode)
     if n < 6:
         raise AnalysisBroken('only %d back-transformations analysed' % n)
 
